@@ -786,7 +786,7 @@ func Gen(r *core.Rng, tier string) ([]core.In[Input], bool) {
 }
 
 var Driver = core.Driver[Input, Obs]{
-	Spec: core.Spec{Property: "C02", Imports: []string{"C02_Model", "C02_Spec", "C02_Corr"}, Corr: "C02_Corr", Triggers: []string{"F25", "F26"}, ShrinkKey: "dyn_ops",
+	Spec: core.Spec{Property: "C02", Imports: []string{"C02_Model", "C02_Spec", "C02_Corr"}, Corr: "C02_Corr", Triggers: []string{"F25", "F26", "F32"}, ShrinkKey: "dyn_ops",
 		Rule: "snap: a real monitor on a fake cluster (static namespaces / all namespaces, nameSelector with repeated entries, initial objects, with and without jqFilter .data, keepFullObjectsInMemory true/false; object content = a part the filter selects + a label outside it, 35% of modifications touch only the latter) follows generated create/modify/delete histories over 3 namespaces x 3 names, Snapshot() at quiescence and after a restart compared entry by entry (identity, filterResult, object) with the matching objects of the cluster; upd: the real HookController.UpdateSnapshots over a reader that answers differently on every call, random include topologies and context arrays; grp: a real hook config with two kubernetes bindings sharing a group, named and unnamed (trigger F25); one ghost scenario (trigger F26); dyn: a real monitor with namespace.labelSelector (matchLabels or matchExpressions; its REAL namespace informer on the fake cluster, whose Namespace objects are kept equal to what a label-filtered watch shows; with and without nameSelector / jqFilter / keepFullObjectsInMemory) follows generated histories over 3 namespaces x 3 names of object create/modify/delete (objects moving between namespaces), namespaces created with or without the label / gaining or losing it / deleted (with their objects left behind, or deleted too), changes that keep a namespace matching, and operator restarts; namespaces matching at the start, at a restart and only later all stop matching and match again; Snapshot() at every read point (1-5 per history) compared entry by entry with the objects of the namespaces that match THEN; fixed corpus of 10 such histories; failing dyn histories are shortened; non-trivial = >=3 cluster operations or >=2 contexts; distinct by input"},
 	Gen: Gen, Run: Run, Render: Render, PerShard: 400, Workers: 8, CaseTimout: 40 * time.Second,
 }
